@@ -91,6 +91,8 @@ func driveC17(t *testing.T, out *vEmitter) {
 		"/users/ab/profile", "/users/a%2Fb/profile", "/users/a%2fb/profile?x=1", "/users/caf%C3%A9/profile", "/my%20docs/x%20y", "/my docs/z", "/caf%C3%A9/au%20lait", "/users//profile",
 		"/docs/plain.txt", "/docs/release%20notes.txt", "/docs/r%C3%A9sum%C3%A9.txt", "/docs/a+b.txt", "/docs/a%2Bb.txt", "/docs/semi%3Bcolon.txt", "/docs/missing.txt",
 		"/files/plain.txt", "/files/release%20notes.txt", "/files/r%C3%A9sum%C3%A9.txt", "/files/a+b.txt", "/files/nope.txt",
+		// an encoded slash sitting exactly on the boundary of a configured path: with raw-path proxying the choice is made on the path as sent
+		"/a/b%2Fx", "/a%2Fb/x", "/a/b%2Fc", "/a%2Fb%2Fc", "/a/b%2fc/", "/api%2Fv2/x", "/api/v2%2Fitems", "/exact%2F", "/ab%2F",
 		"/static-resp/x", "/a/", "/a/x", "/ab/x", "/a/b/x", "/a/b/c", "/a/b/c/", "/a/b/cd", "/nohost/x", "/a", "/ab", "/new/direct"}
 	queries := []string{"", "?q=1&r=a+b%20c", "?", "?x=%2F&y=%3D;z"}
 	for si, set := range sets {
@@ -256,7 +258,14 @@ func driveC17(t *testing.T, out *vEmitter) {
 							}
 						}
 						if !cleanRedirect && !rewriteRefused && !fileNotFound {
-							out.Case("route", true, obs, vL("upstream_route", vL(listSX...), vL(mt...), vS(mpath), vS(req.URL.Path)))
+							// what the mux sees for registerTrailingSlashHandler's probe (decoded path + "/")
+							slashURL := *req.URL
+							slashURL.Path += "/"
+							probe := slashURL.Path
+							if rawPath {
+								probe = slashURL.EscapedPath()
+							}
+							out.Case("route", true, obs, vL("upstream_route", vL(listSX...), vL(mt...), vS(mpath), vS(req.URL.Path), vS(probe)))
 						}
 					}
 					out.Stat("requests", 1)
